@@ -6,7 +6,7 @@ import ast
 from ..core import terms as T
 from ..core import asthelp as H
 from ..core.interp import Interp, assume
-from ..core.progdb import AnalysisError
+from ..core.progdb import AnalysisError, lit
 from ..core.values import Frame, Obj, PyTuple, to_term
 from ..specs.merge import check_term
 from ..specs.endcoherence import check_end_coherence
@@ -180,6 +180,50 @@ def check_trim_guard(db, chk, rule: str) -> None:
            found={str(k): v for k, v in table.items()}, accepted={"0": [False], "1": [False], "2": [True], "3": [True]}, why="with two or more steps the trailing (incomplete) step must be trimmed")
 
 
+def check_step_set(db, chk, rule: str) -> None:
+    """the set of 'profiler step' name ids the trim cuts by is the set add_iteration assigns iterations from: every symbol that starts with
+    (or contains) 'ProfilerStep'.  A narrower definition (e.g. the anchored regex ^ProfilerStep#(\\d+)) leaves steps spelled 'ProfilerStep #5' -
+    which the iteration parser accepts - out of the cut-off, and nothing is trimmed."""
+    from ..core import regexeq
+    m = db.mod(TM)
+    f = m.func("Trace._filter_irrelevant_gpu_kernels")
+    where = m.loc(f)
+    inner = m.func("Trace._filter_irrelevant_gpu_kernels.filter_gpu_kernels_for_one_rank")
+    # the closure variable the per-rank helper tests names against
+    cand = set()
+    for n in ast.walk(inner):
+        if isinstance(n, ast.Call) and isinstance(n.func, ast.Attribute) and n.func.attr == "isin" and n.args and isinstance(n.args[0], ast.Name):
+            cand.add(n.args[0].id)
+    defs = [(t, v) for t, v, s_ in H.assignments(f, nested=False) if H.name_id(t) in cand]
+    if len(defs) != 1:
+        chk.ob(rule, "the step-id set of the trim has one definition", None, where, found={"candidates": sorted(cand), "definitions": len(defs)})
+        return
+    v = H.expand(f, defs[0][1])
+    verdict, det = None, " ".join(ast.unparse(v).split())[:140]
+    for pat in ("[$v for $k, $v in $$m.items() if 'ProfilerStep' in $k]", "[$v for $k, $v in $$m.items() if $k.startswith('ProfilerStep')]"):
+        if H.match(pat, v) is not None:
+            verdict = True
+    if verdict is None and isinstance(v, ast.Call) and isinstance(v.func, ast.Attribute) and v.func.attr == "get_profiler_step_ids":
+        ty = db.mod("hta.common.types")
+        cv = ty.constants.get("ProfilerStepGroupingPattern")
+        rx = None
+        if isinstance(cv, ast.Call):
+            pk = H.kwarg(cv, "pattern")
+            if isinstance(pk, ast.Call) and pk.args:
+                rx = lit(pk.args[0])
+            inv = lit(H.kwarg(cv, "inverse_match"), False)
+        if isinstance(rx, str) and not inv:
+            try:
+                same, wit = regexeq.match_equivalent(rx, "ProfilerStep")
+                verdict = True if same else False
+                det += f"  [pattern {rx!r}: " + ("same names as the prefix test" if same else f"differs from 'starts with ProfilerStep', e.g. on {('ProfilerStep' + ' #5')!r}") + "]"
+            except regexeq.Unsupported:
+                verdict = None
+    chk.ob(rule, "the trim's step-name set = the names add_iteration numbers (every symbol starting with / containing 'ProfilerStep')", verdict, where, found=det,
+           accepted="[v for k, v in sym_index.items() if 'ProfilerStep' in k]",
+           why="a narrower set makes the trim blind to steps the iteration column knows: with 'ProfilerStep #N' annotations nothing is trimmed although iterations are assigned")
+
+
 def run(db, chk) -> None:
     m = db.mod(TM)
     st = db.mod("hta.common.trace_symbol_table")
@@ -268,6 +312,7 @@ def run(db, chk) -> None:
     STEPS = T.P("STEPS")
 
     check_trim_guard(db, chk, "C12.R3-guard")
+    check_step_set(db, chk, "C12.R3-guard")
     # ------------------------------------------------------------------ R4 end coherence + load order
     check_end_coherence(db, chk, "C12.R4-end-coherence")
     lt = m.func("Trace.load_traces")
